@@ -142,6 +142,7 @@ def check_ref_implies_def(ctx, gates):
     from .. import cfggate as G
     from ..facts import facts
     n_edges = n_checked = 0
+    n_type_edges = [0]
     cache = {}
     reported = set()
     for crate in ("wow_login_messages", "wow_world_messages", "wow_world_base"):
@@ -158,6 +159,19 @@ def check_ref_implies_def(ctx, gates):
             for d in rs:
                 if d["kind"] in ("fn", "impl-fn", "trait-fn"):
                     by_file.setdefault((os.path.relpath(f, REPO), d["name"]), []).append((d["line"], inh[f] + d["enclosing"] + d["own"]))
+        # type-like items (struct / enum / const / static / type / trait) by their module path
+        item_eff = {}
+        for f, rs in recs.items():
+            if f not in inh:
+                continue
+            for d in rs:
+                if d["kind"] in ("struct", "enum", "const", "static", "type", "trait"):
+                    path = "::".join(["crate"] + G.MODPATH.get(f, []) + [m for m in d["module"].split("::") if m] + [d["name"]])
+                    e = inh[f] + d["enclosing"] + d["own"]
+                    if path in item_eff and item_eff[path] != e:
+                        item_eff[path] = None  # defined twice under different cfgs (reported by cfg.item-level)
+                    else:
+                        item_eff[path] = e
         F = facts(crate)
         eff = {}
         for fn in F.all("fn"):
@@ -168,6 +182,62 @@ def check_ref_implies_def(ctx, gates):
             if len(c) > 1 and abs(line - (fn["line"] or 0)) > 12:
                 continue
             eff[fn["path"]] = e
+        def implies(ec, ed):
+            k = (tuple(ec), tuple(ed))
+            if k not in cache:
+                try:
+                    pc, pd = [G.parse_pred(t) for t in ec], [G.parse_pred(t) for t in ed]
+                    at = set()
+                    for p_ in pc + pd:
+                        G.atoms(p_, at)
+                    at = sorted(at)
+                    bad = None
+                    if len(at) <= 14:
+                        for combo in itertools.product((False, True), repeat=len(at)):
+                            env = dict(zip(at, combo))
+                            if all(G.ev(p_, env) for p_ in pc) and not all(G.ev(p_, env) for p_ in pd):
+                                bad = [a.replace("feature=", "") for a, c in zip(at, combo) if c]
+                                break
+                    cache[k] = bad
+                except G.GateError:
+                    cache[k] = None
+            return cache[k]
+
+        # references to type-like items anywhere in a function body or signature
+        def strings(x, out):
+            if isinstance(x, str):
+                if "crate::" in x:
+                    out.add(x)
+            elif isinstance(x, list):
+                for y in x:
+                    strings(y, out)
+        for fn in F.all("fn"):
+            ec = eff.get(fn["path"])
+            if ec is None or fn.get("hir") is None:
+                continue
+            ss = set()
+            strings(fn["hir"], ss)
+            strings(fn.get("inputs"), ss)
+            strings(fn.get("output"), ss)
+            seen_items = set()
+            for sref in ss:
+                for pth in _re.findall(r"crate::[A-Za-z0-9_:]+", sref):
+                    segs = pth.split("::")
+                    for k in range(len(segs), 1, -1):
+                        cand = "::".join(segs[:k])
+                        if cand in item_eff:
+                            seen_items.add(cand)
+                            break
+            for it in seen_items:
+                ed = item_eff[it]
+                if ed is None:
+                    continue
+                n_type_edges[0] += 1
+                bad = implies(ec, ed)
+                if bad is not None and (fn["path"], it) not in reported:
+                    reported.add((fn["path"], it))
+                    ctx.violate("cfg.ref-implies-def", f"{crate}|{fn['path']}|{it}", f"{crate}: {fn['path']} (compiled under {ec}) refers to {it} (compiled only under {ed}): with features [{', '.join(bad) or 'none'}] "
+                                "the function exists but the item does not, so that configuration does not build", fn["file"], fn["line"])
         for m in F.all("mir"):
             caller = _re.sub(r"(::\{closure#\d+\})+$", "", m["path"])
             ec = eff.get(caller)
@@ -207,7 +277,8 @@ def check_ref_implies_def(ctx, gates):
                     fnr = F.fn(caller)
                     ctx.violate("cfg.ref-implies-def", f"{crate}|{caller}|{callee}", f"{crate}: {caller} (compiled under {ec}) calls {callee} (compiled only under {ed}): with features [{', '.join(bad) or 'none'}] the caller exists "
                                 "but the callee does not, so that configuration does not build", fnr["file"] if fnr else None, fnr["line"] if fnr else None)
-    ctx.rule("cfg.ref-implies-def", n_edges, floor=20000, note=f"intra-crate call edges between functions whose effective cfgs are known ({n_checked} distinct cfg pairs): the caller's condition implies the callee's")
+    ctx.rule("cfg.ref-implies-def", n_edges, floor=20000, note=f"intra-crate call edges between functions whose effective cfgs are known, plus {n_type_edges[0]} references from function bodies/signatures to gated structs / enums / consts / traits "
+             f"({len(cache)} distinct cfg pairs): the referrer's condition implies the referent's")
 
 
 def run(ctx):
